@@ -4,7 +4,7 @@
    (every exported name x parameter grid x a 40-value cross-type domain, model vs implementation) plus the source
    fingerprints.  The theorems state what the model computes, for all parameters and all values. *)
 From Coq Require Import QArith Bool List String.
-From PP Require Import Prelude.Base Prelude.Val Prelude.Pred Prelude.Sem Lemmas.Std Lemmas.AtomsSpec.
+From PP Require Import Prelude.Base Prelude.Val Prelude.Pred Prelude.Sem Lemmas.Std Lemmas.AtomsSpec Lemmas.TupleOf.
 Import ListNotations.
 Open Scope Q_scope.
 
@@ -72,3 +72,21 @@ Theorem C08_named_constants_and_sign_tests :
                    ev W pos_p (VQ k q t) = Some (Qlt_bool 0 q)).
 Proof. split; [exact named_constants|exact sign_tests_spec]. Qed.
 Print Assumptions C08_named_constants_and_sign_tests.
+
+(* is_tuple_of_p(p1 .. pn) (Lemmas/TupleOf.v: the class has a LIST of predicates, so it is modelled beside `pred`): True exactly
+   on iterables of the same length whose i-th element satisfies the i-th predicate; False at once on another length; False
+   when some element fails and no earlier one raised; TypeError (None) on what is not iterable *)
+Theorem C08_tuple_of : forall W ps,
+  (forall k items, (tuple_of_call W ps (VColl k items) = Some true <->
+        List.length items = List.length ps /\ Forall2 (fun p v => ev W p v = Some true) ps items) /\
+     (List.length items <> List.length ps -> tuple_of_call W ps (VColl k items) = Some false)) /\
+  (forall vs, List.length vs = List.length ps ->
+     (zip_all W ps vs = Some false <->
+        exists i p v, nth_error ps i = Some p /\ nth_error vs i = Some v /\ ev W p v = Some false /\
+                      forall j q u, (j < i)%nat -> nth_error ps j = Some q -> nth_error vs j = Some u -> ev W q u = Some true)) /\
+  (forall x, (forall k items, x <> VColl k items) -> tuple_of_call W ps x = None).
+Proof.
+  intros W ps. split; [intros k items; exact (tuple_of_spec W ps k items)|].
+  split; [exact (tuple_of_false_or_raises W ps)|exact (tuple_of_not_iterable W ps)].
+Qed.
+Print Assumptions C08_tuple_of.
